@@ -171,7 +171,22 @@ func c06(c *ctx) {
 	if c.thorough {
 		nr = 120
 	}
-	extra := []wop{{"SetExt", "1", ""}, {"SetExt", "0", ""}, {"ResetOp", "2", ""}, {"ResetOp", "1", ""}, {"Write", "s", ""}, {"Write", "s/2", ""}, {"Flush", "", ""}, {"Flush", "", ""}}
+	extra := []wop{{"SetExt", "1", ""}, {"SetExt", "0", ""}, {"ResetOp", "2", ""}, {"ResetOp", "1", ""}, {"Write", "s", ""}, {"Write", "s/2", ""}, {"Flush", "", ""}, {"Flush", "", ""},
+		{"WriteThrough", "1", "extfail"}, {"WriteThrough", "s+1", "extfail"}}
+	// a write-through that a send extension refuses, between any two operations
+	for ci, cf := range wconfigs(false) {
+		for _, a := range wAlphabet {
+			for _, b := range wAlphabet {
+				for _, wt := range []wop{{"WriteThrough", "1", "extfail"}, {"WriteThrough", "s+1", "extfail"}} {
+					if !c.thorough && (len(a.Arg)+len(b.Arg)+ci)%3 != 0 {
+						continue
+					}
+					ops := []wop{a, wt, b, {"Flush", "", ""}, {"Write", "1", ""}, {"Flush", "", ""}}
+					run(wscenario{Key: fmt.Sprintf("extfail/%d/%s", ci, opsKey(ops)), Ctor: cf.Ctor, N: cf.N, Side: cf.Side, Op: cf.Op, Ops: ops, Ext: cf.Ext})
+				}
+			}
+		}
+	}
 	for ci, cf := range rcs {
 		for k := 0; k < nr; k++ {
 			n := 12 + rng.Intn(29)
